@@ -27,6 +27,7 @@ from okdmr.dmrlib.etsi.layer2.pdu.rate12_data import Rate12Data
 from okdmr.dmrlib.etsi.layer2.pdu.rate34_data import Rate34Data
 from okdmr.dmrlib.etsi.layer2.pdu.rate1_data import Rate1Data
 from okdmr.dmrlib.transmission.terminal import Terminal
+from okdmr.dmrlib.transmission.transmission import Transmission
 from okdmr.dmrlib.transmission.transmission_generator import TransmissionGenerator
 from okdmr.dmrlib.transmission.transmission_observer_interface import TransmissionObserverInterface
 from okdmr.dmrlib.transmission.transmission_types import TransmissionTypes
@@ -99,6 +100,23 @@ class Rec(TransmissionObserverInterface):
         self.events.append(("voice_ended", None, voice_header, list(blocks)))
 
 
+class ListRec(list, TransmissionObserverInterface):
+    """an observer that *is* its event list (empty -- hence falsy -- until the first notification)"""
+
+    @property
+    def events(self):
+        return self
+
+    def transmission_started(self, transmission_type):
+        self.append(("started", transmission_type, None, None))
+
+    def data_transmission_ended(self, transmission_header, blocks):
+        self.append(("data_ended", None, transmission_header, list(blocks)))
+
+    def voice_transmission_ended(self, voice_header, blocks):
+        self.append(("voice_ended", None, voice_header, list(blocks)))
+
+
 def one_config(acc, cfg, shared=None):
     """shared: (terminal, recorder) to re-use instead of fresh ones"""
     rate, confirmed, length, k, cc, fill = cfg[:6]
@@ -146,9 +164,17 @@ def one_config(acc, cfg, shared=None):
     else:
         term, rec = shared
         rec.events = []
+    final_tx = None
     try:
         with contextlib.redirect_stdout(io.StringIO()):
-            if mode == "one_by_one":
+            if mode == "transmission_object_with_list_like_observer":
+                # the receiving logic used directly (as the library's own tools do), with an observer object that is empty when handed over
+                rec = ListRec()
+                final_tx = Transmission(rec)
+                for r in raw:
+                    final_tx.process_packet(Burst.from_bytes(r))
+                    calls += 2
+            elif mode == "one_by_one":
                 for r in raw:
                     term.process_incoming_burst(Burst.from_bytes(r), 1)
                     calls += 2
@@ -215,7 +241,7 @@ def one_config(acc, cfg, shared=None):
                               "a confirmed block the generator emitted reports an invalid CRC-9 at the library's own receiver")
             if any(not d.is_confirmed() for d in datas):
                 acc.violation("confirmed_block_typing", case)
-    ts = term.timeslots[1].transmission
+    ts = final_tx if final_tx is not None else term.timeslots[1].transmission
     if ts.type != TransmissionTypes.Idle:
         acc.violation("tracker_not_idle_afterwards", case)
     acc.case(nontrivial=True, calls=calls, outcome=(rate, confirmed, n), sample=case if length in (0, 37) and k == 1 else None)
@@ -290,6 +316,8 @@ def build_space(thorough):
     # (a) every payload length, every rate, both confirmation modes, one preamble, counter fill; the three feeding modes rotate with the length
     modes = ("one_by_one", "parse_all_then_feed", "reused_receive_buffer")
     for ri, (r, c) in enumerate(rc):
+        for length in range(0, 41 if not thorough else 121):
+            add((r, c, length, 1 + (length % 2), 1, "counter", "ShortData", "transmission_object_with_list_like_observer"))
         for length in range(0, max_len + 1):
             add((r, c, length, 1, 1, "counter", "ShortData", modes[(length + ri) % 3]))
         for length in range(0, 41 if not thorough else 121):
